@@ -74,6 +74,8 @@ def handle (op : String) (args : List String) : Option Ans :=
       -- `Proofs.OnetimeAuth.onetimeauthVerify_eq`: = `if t = Model.Poly1305.mac k m then ok else err`
       some ((match Model.OnetimeAuth.onetimeauthVerify k m t with | .ok () => "ok" | .err => "err" | .panic => "panic"),
             (if t = Spec.Poly1305.mac k m then "ok" else "err"))
+  | "poly1305_objverify", some (k :: t :: cs) =>
+      some ((match Model.OnetimeAuth.objectVerifyChunks k cs t with | .ok () => "ok" | .err => "err" | .panic => "panic"), "n/a")
   | "increment", some [b] =>
       some (okHex (Model.Utils.incrementBytes b), okHex (toLE b.length (le b + 1)))
   | "auth", some [k, m] =>
